@@ -4,6 +4,7 @@ go 1.21
 
 require (
 	github.com/anishathalye/porcupine v1.3.0
+	github.com/fsnotify/fsnotify v1.4.9
 	github.com/pelletier/go-toml v1.8.0
 	github.com/sirupsen/logrus v1.4.2
 	github.com/taskctl/taskctl v0.0.0
